@@ -184,6 +184,44 @@ Definition proto3_default (sc : schema) (f : fdesc) : result pv :=
       end
   end.
 
+(* ---- presence classes of a field (proto3 language guide, "Field presence") ---- *)
+(* plain scalar / enum (and the value types datetime / timedelta): no optional, no oneof, no message object *)
+Definition implicit_field (f : fdesc) : Prop :=
+  fgroup f = None /\ fopt f = false /\
+  exists t, fhint f = HPlain t /\ forall c, t <> PyMsg c.
+
+
+(* proto3 optional and wrapper-typed fields (both are Optional[...] in Python; never oneof members) *)
+Definition optional_like (f : fdesc) : Prop :=
+  fgroup f = None /\ (fopt f = true \/ exists w t, fwraps f = Some w /\ fhint f = HOptional t).
+
+
+(* the kinds with explicit presence, as a property of the field alone *)
+Definition explicit_field (f : fdesc) : Prop := optional_like f \/ exists g, fgroup f = Some g.
+
+
+Definition plain_msg_field (f : fdesc) : Prop :=
+  fgroup f = None /\ fopt f = false /\ fwraps f = None /\ fty f = TMessage.
+
+
+Definition msg_hinted (f : fdesc) : Prop := exists c', fhint f = HPlain (PyMsg c').
+
+
+Definition plain_msg (f : fdesc) : Prop := plain_msg_field f /\ msg_hinted f.
+
+
+(* the three kinds the property names: proto3 optional and wrapper fields (never oneof members in a
+   well-formed schema), and the member its oneof group selects *)
+Definition explicit_kind (cur : list (option nat)) (i : nat) (f : fdesc) : Prop :=
+  (fgroup f = None /\ (fopt f = true \/ exists w t, fwraps f = Some w /\ fhint f = HOptional t))
+  \/ group_selects cur f i = Some true.
+
+
+(* a byte string that starts with the tag (number, wire type) of a record *)
+Definition starts_with_tag (num wt : Z) (bs : list byte) : Prop :=
+  exists tb rest, VarintRep (num * 8 + wt) tb /\ bs = tb ++ rest.
+
+
 (* the class table starts with betterproto's own classes (Timestamp, Duration, nine wrappers), whose
    fields are plain ungrouped scalars: what msggen prints as `builtin_classes ++ ...` *)
 Definition std_builtins_b (sc : schema) : bool :=
